@@ -69,14 +69,12 @@ def detect(sdir, tier='quick'):
     try:
         apply(d, os.path.join(sdir, 'patch.diff'))
         for p in props:
-            env = dict(os.environ, VERIF_REPO=d)
+            env = dict(os.environ, VERIF_REPO=d, VERIF_OUT=os.path.join(d, 'verifout'))
             r = subprocess.run([os.path.join(V, 'check'), p, '--tier', tier], capture_output=True, text=True, env=env, cwd=V)
             viol = [l for l in r.stdout.splitlines() if l.startswith('VIOLATION')]
             res[p] = (r.returncode, len(viol), [l.strip()[:160] for l in r.stdout.splitlines() if 'violating descriptor' in l][:3])
     finally:
         shutil.rmtree(d, ignore_errors=True)
-    # restore evidence written against the scratch tree
-    subprocess.run(['git', '-C', V, 'checkout', '--', 'evidence'], capture_output=True)
     return res
 
 
